@@ -298,4 +298,16 @@ def derivedOk (row : String × List String) : Bool :=
   | none => false
   | some f => decide (row.2.map attrOfName = derivedNames f)
 
+/-- the measured constructor signature of a class is M's list of primaries, in order -/
+def ctorOk (row : String × List String) : Bool :=
+  match famOfClass row.1 with
+  | none => false
+  | some f => decide (row.2.map attrOfName = prims f)
+
+/-- measured acceptance pattern of one setter (value, stored?) agrees with M's constraint of that attribute -/
+def acceptOk (row : String × String × List (Rat × Bool)) : Bool :=
+  match famOfClass row.1 with
+  | none => false
+  | some f => row.2.2.all (fun vb => (cons f (attrOfName row.2.1)).ok vb.1 == vb.2)
+
 end Rpylib.Params
